@@ -5,7 +5,6 @@
 package conc
 
 import (
-	"bytes"
 	"encoding/binary"
 	"math/big"
 
@@ -77,28 +76,37 @@ func NewSharedFill(mask byte) *Shared {
 }
 
 // Snapshot serialises every shared byte and limb.
-func (s *Shared) Snapshot() []byte {
-	var b bytes.Buffer
+func (s *Shared) Snapshot() []byte { return s.SnapshotInto(nil) }
 
-	b.Write(s.Buf)
-	b.Write(s.encBuf[:cap(s.encBuf)])
+// SnapshotInto is Snapshot appending to dst[:0] (no allocation when dst is large enough).
+func (s *Shared) SnapshotInto(dst []byte) []byte {
+	b := dst[:0]
+	b = append(b, s.Buf...)
+	b = append(b, s.encBuf[:cap(s.encBuf)]...)
+
+	var w8 [8]byte
+
+	put := func(w uint64) {
+		binary.LittleEndian.PutUint64(w8[:], w)
+		b = append(b, w8[:]...)
+	}
 
 	for _, e := range []*secp256k1.Element{s.E1, s.E2} {
 		x, y, z := secp256k1.VerifRaw(e)
 		for _, l := range [][4]uint64{x, y, z} {
 			for _, w := range l {
-				binary.Write(&b, binary.LittleEndian, w)
+				put(w)
 			}
 		}
 	}
 
 	for _, sc := range []*secp256k1.Scalar{s.S1, s.S2} {
 		for _, w := range sc.S {
-			binary.Write(&b, binary.LittleEndian, w)
+			put(w)
 		}
 	}
 
-	return b.Bytes()
+	return b
 }
 
 // Op is one member of the concurrency alphabet. Run builds the receivers it owns, performs the call(s) with
